@@ -728,6 +728,16 @@ class Interp:
         # type(x) is T / is not T / == T: exact class test on a JSON value
         if isinstance(test, ast.Compare) and len(test.ops) == 1 and isinstance(test.ops[0], (ast.Is, ast.IsNot, ast.Eq, ast.NotEq)):
             l, r = test.left, test.comparators[0]
+
+            def type_call(x):
+                # `type(v)` itself, or a local bound once to it (kind = type(element); if kind is list: ...)
+                if isinstance(x, ast.Name) and self.cur_func is not None and x.id not in ("bool", "int", "float", "str", "list", "dict"):
+                    defs = [n.value for n in walk_body(self.cur_func) if isinstance(n, ast.Assign) and len(n.targets) == 1
+                            and isinstance(n.targets[0], ast.Name) and n.targets[0].id == x.id]
+                    if len(defs) == 1:
+                        return defs[0]
+                return x
+            l, r = type_call(l), type_call(r)
             for a, b in ((l, r), (r, l)):
                 if isinstance(a, ast.Call) and isinstance(a.func, ast.Name) and a.func.id == "type" and len(a.args) == 1 and isinstance(b, ast.Name) \
                         and b.id in ("bool", "int", "float", "str", "list", "dict"):
@@ -1231,6 +1241,22 @@ class Interp:
             if isinstance(node, ast.BinOp) and isinstance(node.left, ast.Constant) and isinstance(node.right, ast.Tuple):
                 want = node.left.value.replace("%%", "").count("%")
                 self.need(want == len(node.right.elts), "TypeError", node, "string formatting arity")
+            if isinstance(node, ast.BinOp) and isinstance(node.left, ast.Constant) and isinstance(node.left.value, str):
+                # numeric conversions convert their argument: %e %f %g go through a C double (OverflowError for an integer beyond
+                # 1.8e308), %d %i %x %o %c need a finite number (OverflowError/ValueError for inf/nan, TypeError for a non-number)
+                import re as _re
+                specs = _re.findall(r"%(?:\([^)]*\))?[-#0 +]*(?:\*|\d+)?(?:\.(?:\*|\d+))?[hlL]?([diouxXeEfFgGcrsa%])", node.left.value)
+                specs = [c for c in specs if c != "%"]
+                args = node.right.elts if isinstance(node.right, ast.Tuple) else [node.right]
+                for c, a in zip(specs, args):
+                    av = self.eval_quiet(a, s) if hasattr(self, "eval_quiet") else None
+                    if av is None:
+                        continue
+                    if c in "eEfFgG":
+                        self.need(av.kinds <= frozenset(["int", "float", "bool"]), "TypeError", node, "%%%s of a non-number" % c, av.describe())
+                        self.need(not ("int" in av.kinds and av.big), "OverflowError", node, "%%%s converts an integer of unbounded size to a float" % c, av.describe())
+                    elif c in "diouxXc":
+                        self.need(av.kinds <= frozenset(["int", "float", "bool"]), "TypeError", node, "%%%s of a non-number" % c, av.describe())
             elif "tuple" in r.kinds and r.items is None:
                 pass
             return AV(["str"])
